@@ -103,7 +103,8 @@ class Count:
 class LaneInterp:
     """bit-provenance interpreter for one scalar @vectorize lane: x is a `width`-bit word of source bits"""
 
-    def __init__(self, f, width, lut_names, lut_len):
+    def __init__(self, f, width, lut_names, lut_len, prog=None, depth=0):
+        self.prog, self.depth = prog, depth
         self.f = f
         self.width = width
         self.lut = lut_names
@@ -148,9 +149,12 @@ class LaneInterp:
             return None
         if isinstance(st, ast.For) and isinstance(st.target, ast.Name) and not st.orelse:
             it = st.iter
-            if not (isinstance(it, ast.Call) and last(norm(it.func)) == 'range' and all(isinstance(const_value(a), int) for a in it.args)):
-                raise bitprov.Abort('loop bound is not a literal range')
-            for v in range(*[const_value(a) for a in it.args]):
+            if not (isinstance(it, ast.Call) and last(norm(it.func)) == 'range'):
+                raise bitprov.Abort('loop is not over a range')
+            bounds = [self.ev(a) for a in it.args]
+            if not all(isinstance(b, int) for b in bounds) or not bounds:
+                raise bitprov.Abort('loop bound is not a constant')
+            for v in range(*bounds):
                 self.env[st.target.id] = v
                 r = self.block(st.body)
                 if r is not None:
@@ -203,6 +207,16 @@ class LaneInterp:
             return c
         if isinstance(e, ast.Call) and last(norm(e.func)) in ('uint8', 'uint16', 'uint32', 'uint64', 'int') and len(e.args) == 1:
             return self.ev(e.args[0])
+        if isinstance(e, ast.Call) and isinstance(e.func, ast.Name) and self.prog is not None and self.depth < 3:
+            r = self.prog.resolve(self.f.mod, e.func)
+            if r and r[0] == 'func' and r[1].mod is self.f.mod and not e.keywords and len(e.args) == len(r[1].params):
+                callee = r[1]
+                sub = LaneInterp(callee, self.width, self.lut, self.lut_len, prog=self.prog, depth=self.depth + 1)
+                sub.env = {p_: self.ev(a) for p_, a in zip(callee.params, e.args)}
+                res = sub.run()
+                self.lookups += sub.lookups
+                self.oob += sub.oob
+                return res
         raise bitprov.Abort(f'expression not modelled: {norm(e)[:50]}')
 
 
@@ -272,7 +286,7 @@ def d1(ctx, prog):
         if len(f.params) != 1:
             ctx.undecided('C15-D1', f'{f.key}::lane', 'lane does not take exactly one word', f.where())
             continue
-        li = LaneInterp(f, width, {'_HW_LUT'}, len(lut))
+        li = LaneInterp(f, width, {'_HW_LUT'}, len(lut), prog=prog)
         try:
             res = li.run()
         except bitprov.Abort as e:
